@@ -157,9 +157,22 @@ def run(ctx):
     ctx.check("R2", "every visited subgraph gets a capture set", len(inits) == len(pushes), p, p.node,
               "a subgraph without captures is missing from the result", how="one initialisation per push", nontrivial=False)
     c = repo.func(f"{IU}:_collect_implicit_usages")
-    brk = [n for n in own_nodes(c.node) if isinstance(n, ast.If) and " is inp.graph" in norm(n.test) and any(isinstance(s, ast.Break) for s in n.body)]
-    rev = [n for n in own_nodes(c.node) if isinstance(n, ast.For) and norm(n.iter) == "reversed(graph_stack)"]
-    ctx.check("R2", "a captured value is charged to every enclosing graph up to (not including) its owner", bool(brk) and bool(rev), c, c.node,
+    # for <g> in reversed(<stack parameter>): if <g> is <input>.graph: break  - innermost first, stop at the owner
+    ok = False
+    for lp in (n for n in own_nodes(c.node) if isinstance(n, ast.For)):
+        it = lp.iter
+        if not (isinstance(it, ast.Call) and dotted_of(it.func) == "reversed" and it.args and isinstance(it.args[0], ast.Name)
+                and it.args[0].id in c.params and isinstance(lp.target, ast.Name)):
+            continue
+        g = lp.target.id
+        for iff in (n for n in ast.walk(lp) if isinstance(n, ast.If)):
+            t = iff.test
+            if isinstance(t, ast.Compare) and len(t.ops) == 1 and isinstance(t.ops[0], ast.Is):
+                sides = [t.left, t.comparators[0]]
+                if any(isinstance(x, ast.Name) and x.id == g for x in sides) and any(isinstance(x, ast.Attribute) and x.attr == "graph" for x in sides) \
+                        and any(isinstance(b, ast.Break) for b in iff.body):
+                    ok = True
+    ctx.check("R2", "a captured value is charged to every enclosing graph up to (not including) its owner", ok, c, c.node,
               "captures are not propagated through all enclosing subgraphs", how="reverse walk of the stack, break at the owning graph")
     # R3
     s = repo.func(f"{EX}:_find_subgraph_bounded_by_values")
@@ -183,15 +196,50 @@ def run(ctx):
     ctx.check("R3", "the frontier validation follows the traversal and dominates the return", bool(ok), s, s.node,
               "the region is returned without checking that every required non-initializer value is covered by the inputs",
               how="while-loop → validation test → return, by dominators")
-    vis = [n for n in own_nodes(s.node) if isinstance(n, (ast.Assign, ast.AnnAssign)) and norm(n.targets[0] if isinstance(n, ast.Assign) else n.target) == "visited_values"]
-    ok = bool(vis) and "set(inputs)" in norm(vis[0].value)
+    inputs_p = s.params[1]
+
+    def defs_of(name):
+        return [n.value for n in own_nodes(s.node) if isinstance(n, (ast.Assign, ast.AnnAssign)) and getattr(n, "value", None) is not None
+                and any(isinstance(t, ast.Name) and t.id == name for t in (n.targets if isinstance(n, ast.Assign) else [n.target]))]
+
+    def from_inputs(name):
+        return any(isinstance(x, ast.Name) and x.id == inputs_p for d in defs_of(name) for x in ast.walk(d))
+
+    # the visited set: the name tested by `if <value> in <V>: continue` inside the traversal loop
+    ok = False
+    if loops:
+        for iff in (n for n in ast.walk(loops[0]) if isinstance(n, ast.If) and any(isinstance(b, ast.Continue) for b in n.body)):
+            t = iff.test
+            if isinstance(t, ast.Compare) and len(t.ops) == 1 and isinstance(t.ops[0], ast.In) and isinstance(t.comparators[0], ast.Name):
+                ok = ok or from_inputs(t.comparators[0].id)
     ctx.check("R3", "the traversal stops at the given inputs", ok, s, s.node, "inputs are not pre-marked as visited: the region grows past its boundary",
-              how="visited_values initialised with the inputs")
-    chk = [n for n in own_nodes(s.node) if isinstance(n, ast.If) and "not in inputs_set" in norm(n.test) and "is_initializer()" in norm(n.test)]
+              how="the visited set tested by the traversal loop is initialised from the inputs")
+    # frontier acceptance: `<v> not in <set built from the inputs> and not <v>.is_initializer()`
+    chk = []
+    for iff in (n for n in own_nodes(s.node) if isinstance(n, ast.If)):
+        t = iff.test
+        if isinstance(t, ast.BoolOp) and isinstance(t.op, ast.And):
+            has_notin = any(isinstance(v, ast.Compare) and isinstance(v.ops[0], ast.NotIn) and isinstance(v.comparators[0], ast.Name)
+                            and (from_inputs(v.comparators[0].id) or v.comparators[0].id == inputs_p) for v in t.values)
+            has_init = any(isinstance(v, ast.UnaryOp) and isinstance(v.op, ast.Not) and isinstance(v.operand, ast.Call)
+                           and isinstance(v.operand.func, ast.Attribute) and v.operand.func.attr == "is_initializer" for v in t.values)
+            if has_notin and has_init:
+                chk.append(iff)
     ctx.check("R3", "a frontier value is accepted only if it is a given input or an initializer", bool(chk), s, s.node,
-              "the frontier test accepts values that are neither inputs nor initializers", how="`val not in inputs_set and not val.is_initializer()`")
-    srt = [c for c in calls_in(s) if norm(c.func) == "all_nodes.sort"]
-    ctx.check("R3", "extracted nodes are put back in their original order", bool(srt) and "node_index" in norm(srt[0]), s, s.node,
-              "nodes are returned in traversal order", how="sort by original index", nontrivial=False)
-    ini = [n for n in own_nodes(s.node) if isinstance(n, ast.Call) and norm(n.func) == "initialized_values.add"]
+              "the frontier test accepts values that are neither inputs nor initializers", how="`<v> not in <inputs> and not <v>.is_initializer()`")
+    # original order: the returned node list is sorted by an index table built from enumerate(<graph parameter>)
+    rv = rets[0].value if rets else None
+    lst = rv.elts[0].id if isinstance(rv, ast.Tuple) and rv.elts and isinstance(rv.elts[0], ast.Name) else None
+    srt = [c for c in calls_in(s) if isinstance(c.func, ast.Attribute) and c.func.attr == "sort" and isinstance(c.func.value, ast.Name) and c.func.value.id == lst]
+    idx_ok = False
+    for c in srt:
+        key = next((k.value for k in c.keywords if k.arg == "key"), None)
+        names = {x.id for x in ast.walk(key) if isinstance(x, ast.Name)} if key is not None else set()
+        idx_ok = idx_ok or any(any(isinstance(x, ast.Call) and dotted_of(x.func) == "enumerate" for x in ast.walk(d)) for nm in names for d in defs_of(nm))
+    ctx.check("R3", "extracted nodes are put back in their original order", bool(srt) and idx_ok, s, s.node,
+              "nodes are returned in traversal order", how="returned list sorted by an index built from enumerate(graph)", nontrivial=False)
+    # initializers met during the traversal are recorded in the collection that is returned
+    coll = rv.elts[1].id if isinstance(rv, ast.Tuple) and len(rv.elts) > 1 and isinstance(rv.elts[1], ast.Name) else None
+    ini = [n for n in (ast.walk(loops[0]) if loops else []) if isinstance(n, ast.Call) and isinstance(n.func, ast.Attribute) and n.func.attr == "add"
+           and isinstance(n.func.value, ast.Name) and n.func.value.id == coll]
     ctx.check("R3", "initializers met during the traversal are recorded", bool(ini), s, s.node, "needed initializers are not collected", nontrivial=False)
